@@ -348,7 +348,10 @@ func (p *Pipeline) doHandle(ctx *context.Context, flow []FlowNode, stats []Filte
 		node := &flow[i]
 		alias := node.filterAlias()
 
-		if next != "" && next != alias {
+		// While jumping, skip everything up to the target filter. END nodes are
+		// never a jump target (ValidateJumpIf does not count them), even if
+		// one carries an alias equal to the target.
+		if next != "" && (next != alias || node.FilterName == BuiltInFilterEnd) {
 			continue
 		}
 
